@@ -43,7 +43,7 @@ impl<T> RawBuf<T> {
             crate::verif_capacity!("buffer of more than 4096 elements");
         }
 
-        let layout = Layout::array::<T>(cap).unwrap();
+        let layout = unsafe { Layout::from_size_align_unchecked(size_of::<T>() * cap, ::std::mem::align_of::<T>()) };
         let ptr = unsafe { alloc(layout) }.cast::<T>();
 
         assert!(!ptr.is_null());
@@ -73,7 +73,7 @@ impl<T> RawBuf<T> {
 
     pub(crate) fn free(&mut self) {
         if self.cap != 0 && size_of::<T>() != 0 {
-            let layout = Layout::array::<T>(self.cap).unwrap();
+            let layout = unsafe { Layout::from_size_align_unchecked(size_of::<T>() * self.cap, ::std::mem::align_of::<T>()) };
 
             unsafe { dealloc(self.ptr.cast::<u8>(), layout) };
         }
